@@ -108,6 +108,42 @@ func rnInconsistent(a, b []rnTok) (string, token.Pos) {
 	if !renamed {
 		return "", token.NoPos
 	}
+	// role letters: a0 -> b0 and a1 -> b1 say "the a-edge becomes the b-edge"; then every other name of the a family
+	// (aLen2, aNorm) must change family too. A family member that stays while two or more others move is the
+	// incomplete-renaming slip at the level of the family instead of the single identifier.
+	type role struct{ p, q byte }
+	evidence := map[role]int{}
+	for x, m := range maps {
+		if len(m) != 1 || len(x) < 2 {
+			continue
+		}
+		for y := range m {
+			if y != x && len(y) == len(x) && x[1:] == y[1:] && x[0] != y[0] {
+				evidence[role{x[0], y[0]}]++
+			}
+		}
+	}
+	for r, n := range evidence {
+		if n < 2 {
+			continue
+		}
+		for z, m := range maps {
+			if len(z) < 2 || z[0] != r.p || !(z[1] >= '0' && z[1] <= '9' || z[1] >= 'A' && z[1] <= 'Z') {
+				continue
+			}
+			if _, stays := m[z]; !stays || len(m) != 1 {
+				continue
+			}
+			// the counterpart name must exist somewhere in the enclosing code for the report to make sense; the
+			// caller checks nothing further - a family member that cannot be renamed has no counterpart and is
+			// not written with the role letter in this code base
+			for i := range a {
+				if a[i].shape == "var" && a[i].name == z {
+					return fmt.Sprintf("the clone renames the %c-names to %c-names (%d of them) but leaves %s, which belongs to the same family, unchanged", r.p, r.q, n, z), b[i].pos
+				}
+			}
+		}
+	}
 	for x, m := range maps {
 		if len(m) != 2 {
 			continue
@@ -171,6 +207,10 @@ func runRename(c *core.Ctx) []core.Obligation {
 					case *ast.BlockStmt:
 						for i := 0; i+1 < len(x.List); i++ {
 							check(x.List[i], x.List[i+1])
+							// `if c { return f(...) }` followed by `return f(...)`: the two returns are the two cases
+							if ifs, ok := x.List[i].(*ast.IfStmt); ok && ifs.Else == nil && len(ifs.Body.List) == 1 {
+								check(ifs.Body.List[0], x.List[i+1])
+							}
 						}
 					case *ast.SwitchStmt:
 						for i := 0; i+1 < len(x.Body.List); i++ {
